@@ -49,29 +49,35 @@ def actionsInteractive : List Action := [.ifchanged, .diff, .query true, .replac
 def defaultActions (tty : Bool) : List Action :=
   if tty then actionsInteractive else [.print]
 
-/-- One option callback: every action option *replaces* the tuple (`set_actions`);
+/-- `set_actions`.  On the pinned tree (`keep = false`) the new actions *replace* the tuple, which drops the
+    symlink policy action an earlier `--symlinks` (or the implicit leading one) put there — D4.
+    With `fixes/C09-D4.diff` (`keep = true`) the symlink action(s) already in the tuple stay at its head. -/
+def setActions (keep : Bool) (acts new : List Action) : List Action :=
+  if keep then acts.filter Action.isSymlink ++ new else new
+
+/-- One option callback: every action option goes through `set_actions`;
     `--symlinks` filters the symlink actions out and prepends its own (`symlink_callback`). -/
-def optStep (acts : List Action) : Opt → Except ParseErr (List Action)
-  | .actions as => .ok as
+def optStep (keep : Bool) (acts : List Action) : Opt → Except ParseErr (List Action)
+  | .actions as => .ok (setActions keep acts as)
   | .actionsBad => .error .exception
-  | .print => .ok [.print]
-  | .diff => .ok [.diff]
-  | .replace => .ok [.ifchanged, .replace]
-  | .diffReplace => .ok [.ifchanged, .diff, .replace]
-  | .interactive => .ok actionsInteractive
+  | .print => .ok (setActions keep acts [.print])
+  | .diff => .ok (setActions keep acts [.diff])
+  | .replace => .ok (setActions keep acts [.ifchanged, .replace])
+  | .diffReplace => .ok (setActions keep acts [.ifchanged, .diff, .replace])
+  | .interactive => .ok (setActions keep acts actionsInteractive)
   | .symlinks (some p) => .ok (.symlink p :: acts.filter (fun a => !a.isSymlink))
   | .symlinks none => .error .optionValueError
 
-def optFold : List Action → List Opt → Except ParseErr (List Action)
+def optFold (keep : Bool) : List Action → List Opt → Except ParseErr (List Action)
   | acts, [] => .ok acts
   | acts, o :: os =>
-    match optStep acts o with
-    | .ok acts' => optFold acts' os
+    match optStep keep acts o with
+    | .ok acts' => optFold keep acts' os
     | .error e => .error e
 
 /-- `parse_args(modify_action_params=True)`: `args = ["--symlinks=error"] + sys.argv[1:]`. -/
-def parseOptions (tty : Bool) (opts : List Opt) : Except ParseErr (List Action) :=
-  optFold (defaultActions tty) (.symlinks (some .error) :: opts)
+def parseOptions (keep : Bool) (tty : Bool) (opts : List Opt) : Except ParseErr (List Action) :=
+  optFold keep (defaultActions tty) (.symlinks (some .error) :: opts)
 
 /-! ### File system -/
 
@@ -364,9 +370,9 @@ def processActions (env : Env) (fs : FS) (acts : List Action) (args : List Path)
 
 /-- A whole invocation: option parsing, then `process_actions`.  An option error ends the
     program before any file is looked at (exit status 2 from optparse, 1 for the exception). -/
-def main (env : Env) (tty : Bool) (opts : List Opt) (fs : FS) (args : List Path)
+def main (env : Env) (keep : Bool) (tty : Bool) (opts : List Opt) (fs : FS) (args : List Path)
     (ans : List Str) : Result :=
-  match parseOptions tty opts with
+  match parseOptions keep tty opts with
   | .error .optionValueError => ⟨fs, 2, [], none, [], ans⟩
   | .error .exception => ⟨fs, 1, [], none, [], ans⟩
   | .ok acts => processActions env fs acts args ans
